@@ -29,6 +29,20 @@ SEEN_APPS = []
 _TRACERS = {}
 
 
+class Fac(object):
+    """a render factory: instances of one class, configured differently per application (same module and name, other state)"""
+    def __init__(self, tag):
+        self.tag = tag
+
+    def __call__(self, arg):
+        from clastic import Response
+        tag = self.tag
+
+        def render(context):
+            return Response('F[%s](%s):%s' % (tag, arg, context['rid']))
+        return render
+
+
 def kind_of(mwid):
     """'A0:K1' -> 'K1' (the middleware type); ids without a kind have a type of their own"""
     return mwid.split(':', 1)[1] if ':' in mwid else mwid
@@ -136,7 +150,19 @@ class Sim(object):
         if exp['kind'] == 'redirect':
             ok = r.status in (301, 302, 303, 307, 308)
         elif exp['kind'] == 'answer':
-            ok = r.status == 200 and (method == 'HEAD' or r.body == ('route-%s' % exp['rid']).encode())
+            seen = M.seen_path(path)
+            ans = next((e for e in a['table'] if e.rid == exp['rid'] and U.match(e.parsed, e.mode, seen)
+                        and (e.mset is None or method.upper() in e.mset)), None)
+            if ans is not None and getattr(ans, 'rarg', False):
+                if ans.fac is None:
+                    ok = r.status == 500       # nobody interprets the render argument: the context comes back unrendered
+                else:
+                    ok = r.status == 200 and (method == 'HEAD' or r.body == ('F[%s](tmpl%d):%d' % (ans.fac, ans.rid, ans.rid)).encode())
+                    if not ok and r.status == 200:
+                        self.ctx.mismatch('rendered-by-another-application', '%s: got %r, expected the render argument of route %d to be interpreted by '
+                                          'the factory of application %s' % (what, r.body[:50], ans.rid, ans.fac))
+            else:
+                ok = r.status == 200 and (method == 'HEAD' or r.body == ('route-%s' % exp['rid']).encode())
         else:
             ok = r.status == exp['status']
         if not ok:
@@ -147,9 +173,10 @@ class Sim(object):
             if a['failed_add']:
                 self.interesting = True
 
-    def entry(self, rid, pattern, methods, beh, mode, chain=()):
+    def entry(self, rid, pattern, methods, beh, mode, chain=(), rarg=False, fac=None):
         e = M.Entry(rid, pattern, methods, beh, mode)
         e.chain = list(chain)
+        e.rarg, e.fac = rarg, fac       # render argument? interpreted by which application's factory (None: by nobody yet)
         return e
 
     def idx(self, i, index):
@@ -197,18 +224,29 @@ class Sim(object):
             has_mw = int(op[3]) if len(op) > 3 else 0
             # 0: none; 1: a type of its own; 2, 3: an instance of one of two types shared between applications
             mwid = None if not has_mw else 'A%d' % len(self.apps) if has_mw == 1 else 'A%d:K%d' % (len(self.apps), has_mw)
-            app = Application(slash_mode=mode, resources={'clash': 'c'} if clash else {}, middlewares=[tracer(mwid)] if mwid else [])
-            self.apps.append({'app': app, 'table': [], 'mode': mode, 'clash': clash, 'requested': False, 'failed_add': False, 'mw': mwid})
+            fac = 'A%d' % len(self.apps) if (len(op) > 4 and op[4]) else None
+            app = Application(slash_mode=mode, resources={'clash': 'c'} if clash else {}, middlewares=[tracer(mwid)] if mwid else [],
+                              render_factory=Fac(fac) if fac else None)
+            self.apps.append({'app': app, 'table': [], 'mode': mode, 'clash': clash, 'requested': False, 'failed_add': False, 'mw': mwid, 'fac': fac})
         elif k == 'new_route':
             _, pattern, methods, beh = op[:4]
             needs = bool(op[4]) if len(op) > 4 else False
             route_mw = bool(op[5]) if len(op) > 5 else False
             rid = self.rid()
+            # a render *argument* (a template name): whichever application's render factory the binding rules pick interprets it
+            rarg = bool(op[6]) if len(op) > 6 else False
+            rarg = rarg and beh == 'answer'
             # some routes have an endpoint that requires the resource only some applications define; some carry a middleware
-            route = Route(pattern, M.make_endpoint(rid, beh, names=('clash',) if needs else ()), methods=methods,
+            if rarg:
+                ns = {'rid': rid}
+                exec('def ep(%s):\n    return {"rid": rid}\n' % ('clash' if needs else ''), ns)
+                ep = ns['ep']
+            else:
+                ep = M.make_endpoint(rid, beh, names=('clash',) if needs else ())
+            route = Route(pattern, ep, 'tmpl%d' % rid if rarg else None, methods=methods,
                           middlewares=[tracer('R%d' % rid)] if route_mw else [])
             self.routes.append({'route': route, 'snap': self.snapshot(route), 'rid': rid, 'pattern': pattern, 'methods': methods,
-                                'beh': beh, 'bound_in': set(), 'needs': needs, 'mw': 'R%d' % rid if route_mw else None})
+                                'beh': beh, 'bound_in': set(), 'needs': needs, 'mw': 'R%d' % rid if route_mw else None, 'rarg': rarg})
         elif not self.apps:
             return
         elif k == 'add_route':
@@ -236,7 +274,8 @@ class Sim(object):
             else:
                 self.apps[i]['app'].add(r['route'], index)
             chain = ([self.apps[i]['mw']] if self.apps[i].get('mw') else []) + ([r['mw']] if r.get('mw') else [])
-            self.insert(i, index, [self.entry(r['rid'], r['pattern'], r['methods'], r['beh'], self.apps[i]['mode'], chain)])
+            self.insert(i, index, [self.entry(r['rid'], r['pattern'], r['methods'], r['beh'], self.apps[i]['mode'], chain,
+                                              rarg=r.get('rarg', False), fac=self.apps[i].get('fac'))])
             r['bound_in'].add(i)
             if len(r['bound_in']) >= 2:
                 self.interesting = True
@@ -311,7 +350,11 @@ class Sim(object):
             pfx = prefix.rstrip('/')
             outer = [self.apps[b]['mw']] if self.apps[b].get('mw') else []
             self.insert(b, index, [self.entry(e.rid, pfx + e.pattern, e.methods, e.beh, self.apps[b]['mode'],
-                                              outer + [m for m in e.chain if kind_of(m) not in [kind_of(o) for o in outer]])   # unique by type: kept once, the outermost instance
+                                              outer + [m for m in e.chain if kind_of(m) not in [kind_of(o) for o in outer]],   # unique by type: kept once, the outermost instance
+                                              # embedding does not re-bind renders (the default): an interpreted render argument
+                                              # stays, an uninterpreted one goes to the embedding application's factory
+                                              rarg=getattr(e, 'rarg', False),
+                                              fac=getattr(e, 'fac', None) if getattr(e, 'fac', None) is not None else self.apps[b].get('fac'))
                                    for e in self.apps[a]['table']])
             if self.apps[a]['requested']:
                 self.interesting = True
@@ -374,20 +417,20 @@ def machine():
             self.ctx.current = self.steps
             self.sim.step(op)
 
-        @initialize(mode=st.sampled_from(list(U.MODES)), clash=st.booleans(), mw=st.sampled_from([0, 0, 1, 2, 2, 3]))
-        def first_app(self, mode, clash, mw):
-            self.do(['new_app', mode, clash, mw])
+        @initialize(mode=st.sampled_from(list(U.MODES)), clash=st.booleans(), mw=st.sampled_from([0, 0, 1, 2, 2, 3]), fac=st.booleans())
+        def first_app(self, mode, clash, mw, fac):
+            self.do(['new_app', mode, clash, mw, fac])
 
-        @rule(mode=st.sampled_from(list(U.MODES)), clash=st.booleans(), mw=st.sampled_from([0, 0, 1, 2, 2, 3]))
-        def new_app(self, mode, clash, mw):
+        @rule(mode=st.sampled_from(list(U.MODES)), clash=st.booleans(), mw=st.sampled_from([0, 0, 1, 2, 2, 3]), fac=st.booleans())
+        def new_app(self, mode, clash, mw, fac):
             if len(self.sim.apps) < 4:
-                self.do(['new_app', mode, clash, mw])
+                self.do(['new_app', mode, clash, mw, fac])
 
         @rule(pattern=st.sampled_from(PATTERNS), methods=st.sampled_from(METHODS), beh=st.sampled_from(BEH), needs=st.sampled_from([False, False, True]),
-              mw=st.booleans())
-        def new_route(self, pattern, methods, beh, needs, mw):
+              mw=st.booleans(), rarg=st.sampled_from([False, False, True]))
+        def new_route(self, pattern, methods, beh, needs, mw, rarg):
             if len(self.sim.routes) < 6:
-                self.do(['new_route', pattern, methods, beh, needs, mw])
+                self.do(['new_route', pattern, methods, beh, needs, mw, rarg])
 
         @rule(ai=st.integers(0, 3), ri=st.integers(0, 5), index=index)
         def add_route(self, ai, ri, index):
